@@ -1,23 +1,30 @@
 #!/bin/bash
-# tools/matrix.sh : for every fix: commit of /repo, reverse-apply it on a scratch worktree and run the quick
-# checks of the properties it is relevant for; writes /verif/seeded/REVERT_MATRIX.tsv (commit, subject, checks that fail).
+# tools/matrix.sh [commit...] : for every fix: commit of /repo (or only the given ones), reverse-apply it alone on a
+# scratch worktree and run the quick checks of the properties it is relevant for; writes/updates
+# /verif/seeded/REVERT_MATRIX.tsv (commit, subject, checks that fail; checks that could not run are listed with the reason).
 cd "$(dirname "$0")/.."
 out=seeded/REVERT_MATRIX.tsv
 mkdir -p seeded
-: > "$out.tmp"
+touch "$out"
+only=" $* "
 git -C /repo log --reverse --format='%h %s' --grep='^fix:' | while read -r c subj; do
+  if [ $# -gt 0 ] && [[ "$only" != *" $c "* ]]; then continue; fi
   files=$(git -C /repo show --stat --format= "$c" | awk '{print $1}' | grep '/' | cut -d/ -f1 | sort -u | tr '\n' ' ')
   case "$files" in
     *gotype*) checks="C09 C11 C12 C13 C14 C15 C17 C19 C20" ;;
     *) checks="C01 C02 C03 C04 C05 C06 C07 C08 C09 C10 C16 C17 C18" ;;
   esac
-  res=$(MUT_SHOW=0 tools/mut.sh "revert:$c" $checks 2>&1)
+  res=$(MUT_SHOW=1 tools/mut.sh "revert:$c" $checks 2>&1)
   if echo "$res" | grep -q "cannot reverse-apply"; then
-    echo -e "$c\t$subj\t(later fixes touch the same lines: cannot be reverted alone)" >> "$out.tmp"; continue
+    line="$c\t$subj\t(later fixes touch the same lines: cannot be reverted alone)"
+  else
+    failing=$(echo "$res" | awk '/exit=1/{print $1}' | tr '\n' ' ')
+    infra=$(echo "$res" | awk '/exit=2/{print $1}' | tr '\n' ' ')
+    line="$c\t$subj\t${failing:-NONE}${infra:+ (could not run: $infra)}"
+    [ -n "$infra" ] && echo "$res" | grep -A1 "exit=2" | head -4
   fi
-  failing=$(echo "$res" | awk '/exit=1/{print $1}' | tr '\n' ' ')
-  infra=$(echo "$res" | awk '/exit=2/{print $1}' | tr '\n' ' ')
-  echo -e "$c\t$subj\t${failing:-NONE}${infra:+ (does not build/infra: $infra)}" >> "$out.tmp"
-  echo "$c -> ${failing:-NONE} $infra"
+  grep -v "^$c	" "$out" > "$out.tmp"; echo -e "$line" >> "$out.tmp"; mv "$out.tmp" "$out"
+  echo "$c -> ${failing:-NONE} ${infra:+| could not run: $infra}"
 done
-mv "$out.tmp" "$out"
+# keep the rows in commit order
+git -C /repo log --reverse --format='%h' --grep='^fix:' | while read -r c; do grep "^$c	" "$out"; done > "$out.tmp"; mv "$out.tmp" "$out"
